@@ -5,6 +5,7 @@ import Yuiv.Proofs.C12Left
 import Yuiv.Proofs.C12SchurModel
 import Yuiv.Proofs.C12UF
 import Yuiv.Proofs.C12Group
+import Yuiv.Proofs.C12Check
 /-
 C12 — sparse kernels (triangular solve, Schur complement, block splitting) are exact.
 
@@ -340,4 +341,28 @@ theorem group_cols_order_independent (A : SpMat α) (pairs pairs' : List (Nat ×
     groupColsWith A pairs = groupColsWith A pairs' := groupColsWith_perm A pairs pairs' hmem hp
 
 end group
+
+/-! ### block decomposition: verified checker applied to every real output -/
+
+section decomp
+variable {R : Type} [CommRing R] [Scal R] [LawfulScal R]
+
+/-- **decomp_blocks (checker form).** `checkDecomp` is the executable check the driver runs on the REAL output
+`(p, q, blocks)` of `dir_sum_decomp` for every explored input (request `chkdecomp`) and on the model's own
+output (request `decompchk`).  If it accepts, `p` and `q` are permutations, the blocks fit, and the permuted
+matrix is entrywise the block-diagonal sum of the blocks, zero outside (= zero rows/columns).
+NOT proved: that the code model `dirSumDecomp` always produces an accepted output, and that blocks do not
+split further (both explored by the harness only). -/
+theorem decomp_checker_sound (A : SpMat R) (p q : Array Nat) (blocks : List (SpMat R))
+    (h : checkDecomp A p q blocks = true) :
+    ∃ (σ : Equiv.Perm (Fin A.nrows)) (τ : Equiv.Perm (Fin A.ncols)),
+      (∀ i, (σ i : Nat) = p.getD i 0) ∧ (∀ j, (τ j : Nat) = q.getD j 0) ∧
+      (blocks.map (·.nrows)).sum ≤ A.nrows ∧ (blocks.map (·.ncols)).sum ≤ A.ncols ∧
+      ∀ (i : Fin A.nrows) (j : Fin A.ncols), entry A i j = bdEntry blocks (σ i) (τ j) :=
+  checkDecomp_sound A p q blocks h
+
+example : checkDecomp (α := Int) ⟨2, 2, #[[(1, 5)], [(0, 7)]]⟩ #[1, 0] #[0, 1] [⟨1, 1, #[[(0, 5)]]⟩, ⟨1, 1, #[[(0, 7)]]⟩] = true := by
+  decide +kernel
+
+end decomp
 end Yuiv.C12
